@@ -429,7 +429,9 @@ class MsgClient(Client):
                     if s[2] is not None:
                         self.use(st, vid, sim, "nni_msg_clone")
                     else:
-                        st.vals[vid] = (s[0] + 1, s[1], None, s[3])
+                        # token counts saturate (a loop that clones without consuming converges
+                        # and is reported as a leak at the exit)
+                        st.vals[vid] = (min(s[0] + 1, 4), s[1], None, s[3])
             return st
         if f in ("nni_aio_set_msg", "nng_aio_set_msg") and len(args) >= 2:
             st = st.copy()
